@@ -73,7 +73,8 @@ def close(a, b, scale=None, floor=TOL_ABS):
     if math.isinf(a) or math.isinf(b):
         return a == b
     s = max(abs(a), abs(b)) if scale is None else scale
-    return abs(a - b) <= TOL_REL * s + floor
+    # 1e-300: below the normal range of binary64 a result is subnormal or flushed to zero and has no relative accuracy
+    return abs(a - b) <= TOL_REL * s + floor + 1e-300
 
 
 def dec_frac(x):
